@@ -21,7 +21,7 @@ package store
 //@   ensures reported: (eof || !(binEncodingMode == enc.BinEncodingIndexDeltasAndCounts || binEncodingMode == enc.BinEncodingIndexDeltas || binEncodingMode == enc.BinEncodingContiguousCounts)) ==> result != nil
 //@   ensures Suffix(b)
 //@   ensures SInv(s) && STot(s) >= old(STot(s))
-//@   ensures stable: footprintStable(s)
+//@   ensures stable: footprintStable(s) && SConf(s) == old(SConf(s))
 //@   modifies *b, footprint(s)
 //@   after encoding.DecodeUvarint64#1 ghost eof := eof || $result1 != nil
 //@   after encoding.DecodeUvarint64#2 ghost eof := eof || $result1 != nil
@@ -37,9 +37,60 @@ package store
 //@   after encoding.DecodeVarint64#1 assume $result1 == nil ==> in32(index + $result)
 //@   after encoding.DecodeVarint64#2 assume $result1 == nil ==> in32(index + $result)
 //@   after encoding.DecodeVarint64#3 assume $result1 == nil ==> in32($result)
-//@   loop 1 invariant !eof && i <= numBins && b != nil && Suffix(b) && SInv(s) && STot(s) >= old(STot(s)) && in32(index) && footprintStable(s)
+//@   loop 1 invariant !eof && i <= numBins && b != nil && Suffix(b) && SInv(s) && STot(s) >= old(STot(s)) && in32(index) && footprintStable(s) && SConf(s) == old(SConf(s))
 //@   loop 1 decreases numBins - i
-//@   loop 2 invariant !eof && i <= numBins && b != nil && Suffix(b) && SInv(s) && STot(s) >= old(STot(s)) && in32(index) && footprintStable(s)
+//@   loop 2 invariant !eof && i <= numBins && b != nil && Suffix(b) && SInv(s) && STot(s) >= old(STot(s)) && in32(index) && footprintStable(s) && SConf(s) == old(SConf(s))
 //@   loop 2 decreases numBins - i
-//@   loop 3 invariant !eof && i <= numBins && b != nil && Suffix(b) && SInv(s) && STot(s) >= old(STot(s)) && footprintStable(s)
+//@   loop 3 invariant !eof && i <= numBins && b != nil && Suffix(b) && SInv(s) && STot(s) >= old(STot(s)) && footprintStable(s) && SConf(s) == old(SConf(s))
 //@   loop 3 decreases numBins - i
+
+// interface level: the same contract (nil result = the block was complete and in a known layout)
+//@ pred KnownBinLayout(m enc.SubFlag) := m == enc.BinEncodingIndexDeltasAndCounts || m == enc.BinEncodingIndexDeltas || m == enc.BinEncodingContiguousCounts
+//@ func Store.DecodeAndMergeWith
+//@   serves C08 C06 C07
+//@   requires SInv(this) && b != nil
+//@   ensures known: result == nil ==> KnownBinLayout(binEncodingMode)
+//@   ensures unknown: !KnownBinLayout(binEncodingMode) ==> result != nil
+//@   ensures Suffix(b)
+//@   ensures SInv(this) && STot(this) >= old(STot(this))
+//@   ensures stable: footprintStable(this) && SConf(this) == old(SConf(this))
+//@   modifies *b, footprint(this)
+
+//@ func DenseStore.DecodeAndMergeWith
+//@   serves C08 C06
+//@   requires DInv(s) && b != nil
+//@   ensures known: result == nil ==> KnownBinLayout(encodingMode)
+//@   ensures unknown: !KnownBinLayout(encodingMode) ==> result != nil
+//@   ensures Suffix(b)
+//@   ensures DInv(s) && s.count >= old(s.count)
+//@   ensures alias: arr(s.bins) == old(arr(s.bins)) || fresh(arr(s.bins))
+//@   modifies *b, s, arr(s.bins)
+
+//@ func SparseStore.DecodeAndMergeWith
+//@   serves C08 C06
+//@   requires MInv(s) && b != nil
+//@   ensures known: result == nil ==> KnownBinLayout(encodingMode)
+//@   ensures unknown: !KnownBinLayout(encodingMode) ==> result != nil
+//@   ensures Suffix(b)
+//@   ensures MInv(s) && (s.counts == old(s.counts) || fresh(s.counts)) && MTot(s) >= old(MTot(s))
+//@   modifies *b, s, s.counts
+
+//@ func CollapsingLowestDenseStore.DecodeAndMergeWith
+//@   serves C08 C06 C05
+//@   requires CLInv(s) && r != nil
+//@   ensures known: result == nil ==> KnownBinLayout(encodingMode)
+//@   ensures unknown: !KnownBinLayout(encodingMode) ==> result != nil
+//@   ensures Suffix(r)
+//@   ensures CLInv(s) && s.count >= old(s.count) && s.maxNumBins == old(s.maxNumBins)
+//@   ensures alias: arr(s.bins) == old(arr(s.bins)) || fresh(arr(s.bins))
+//@   modifies *r, s, arr(s.bins)
+
+//@ func CollapsingHighestDenseStore.DecodeAndMergeWith
+//@   serves C08 C06 C05
+//@   requires CHInv(s) && r != nil
+//@   ensures known: result == nil ==> KnownBinLayout(encodingMode)
+//@   ensures unknown: !KnownBinLayout(encodingMode) ==> result != nil
+//@   ensures Suffix(r)
+//@   ensures CHInv(s) && s.count >= old(s.count) && s.maxNumBins == old(s.maxNumBins)
+//@   ensures alias: arr(s.bins) == old(arr(s.bins)) || fresh(arr(s.bins))
+//@   modifies *r, s, arr(s.bins)
